@@ -573,15 +573,7 @@ def run(ctx):
 
 
 # ------------------------------------------------------------------------------------------------ R09.8
-class _TimeAxis(Obj):
-    """The output times as an opaque vector: indexable, and usable in the element-wise arithmetic of the entry points'
-    sanity checks (whose results only feed warnings)."""
-
-    def __init__(self):
-        super().__init__("ts", getitem_hook=lambda i, o, idx, n, f: nf.sym(f"ts[{idx}]", True))
-
-    def sim_binop(self, op, l, r):
-        return nf.sym("ts-arithmetic")
+from .c13 import TimeAxis as _TimeAxis  # noqa: E402
 
 
 def r09_8(ctx):
